@@ -1,4 +1,6 @@
 import DriverLib.Ops
+import Gonnx.Spec.Types
+import Gonnx.Spec.Arity
 import DriverLib.ShapeOps
 import DriverLib.IndexOps
 import DriverLib.ReduceOps
@@ -15,7 +17,7 @@ def padTo (ins : List (Option DT)) (n : Nat) : List (Option DT) := ins ++ List.r
 
 /-- operator-level case: `Init` attribute errors are modelled per operator; then the gate (over the
 regenerated registry); then the operator model -/
-def runOp (op : String) (attrs : Json) (ins : List (Option DT)) (nOut : Nat := 1) : Answer :=
+def runOpLive (op : String) (attrs : Json) (ins : List (Option DT)) (nOut : Nat := 1) : Answer :=
   match gate Generated.registry op (dtsOf ins) with
   | .error e =>
     if op == "Cast" && e == .inputType && ins.length == 1 then
@@ -39,5 +41,37 @@ def runOp (op : String) (attrs : Json) (ins : List (Option DT)) (nOut : Nat := 1
     else if op == "Conv" then runConvOp attrs ins
     else if isRecOp op then runRecOp op attrs ins nOut
     else { model := { status := "unmodelled" } }
+
+/-- the registry with the PINNED arities and element types (Spec/Arity.lean, Spec/Types.lean) in place of
+the regenerated ones - identical to the regenerated registry as long as `C15.registry_arity_onnx` and
+`C15.registry_types_pinned` hold -/
+def pinnedRegistry : List OpDesc := Generated.registry.map fun d =>
+  match Spec.typesOf d.name, Spec.arityOf d.name with
+  | some c, some (mn, mx) => { d with constraints := c, min := mn, max := mx }
+  | _, _ => d
+
+/-- an input list the pinned tables admit but the code's own gate now refuses is judged against what the
+operator has to compute for it (the model still mirrors the code: refused) -/
+def runOp (op : String) (attrs : Json) (ins : List (Option DT)) (nOut : Nat := 1) : Answer :=
+  let live := runOpLive op attrs ins nOut
+  match gate Generated.registry op (dtsOf ins), gate pinnedRegistry op (dtsOf ins) with
+  | .error e, .ok padded =>
+    if op == "Concat" || op == "PRelu" then live
+    else
+      -- evaluate the operator model as the pinned gate would let it through
+      let asAdmitted : Answer :=
+        let ins' := padTo ins padded.length
+        if isArith op || isCmp op || isLogic op then runOpBinary op attrs ins'
+        else if isShapeOp op then runShapeOp op attrs ins'
+        else if isIndexOp op then runIndexOp op attrs ins'
+        else if isReduceOp op then runReduceOp op attrs ins'
+        else if isUnaryOp op then runUnaryOp op attrs ins'
+        else if isConstOp op then runConstOp op attrs ins'
+        else if isMatMulOp op then runMatMulOp op attrs ins'
+        else if op == "Conv" then runConvOp attrs ins'
+        else if isRecOp op then runRecOp op attrs ins' nOut
+        else { model := { status := "unmodelled" } }
+      { asAdmitted with model := .ofErr e, tags := asAdmitted.tags ++ ["gate-refuses-admitted-types"] }
+  | _, _ => live
 
 end Drv
